@@ -542,8 +542,17 @@ func genDictCase(cx *CheckCtx, i int, allowQualKeys bool) *Case {
 			return st(id(pick(r, []string{"Circle", "Square", "Rect", "A", "Zed"})), &Grp{Api: "Values", Args: []Arg{inner}})
 		},
 	}
+	// (C07 only, sometimes: a SET literal — every value `true`, the same symbol under different
+	// packages competing for one name: pairs that tie on everything but the printed qualifier)
+	setMode := allowQualKeys && cx.Prop == "C07" && r.Chance(30)
 	for j := 0; j < n; j++ {
 		k := keyPool[r.Intn(len(keyPool))]()
+		if setMode {
+			q := r.Intn(len(pool.Paths))
+			k = st(Qual{Path: pool.Paths[q], Name: pick(r, []string{"Same", "Same", "Other"})})
+			d.Pairs = append(d.Pairs, [2]Arg{k, st(kw("True"))})
+			continue
+		}
 		var v Arg = st(mkLit(1000 + j))
 		if r.Chance(10) {
 			v = st(kw("Null"))
@@ -716,6 +725,41 @@ func hasMultiDictQual(c *Case) bool {
 	return found
 }
 
+// dictRegistersInMapOrder: the shape of known finding D7 — a multi-pair Dict that mentions a package
+// NOT referenced by any earlier operation of the recipe (so the Dict itself registers it, in map
+// order).  A Dict whose packages were all referenced before it has fixed names: nondeterminism there
+// is not the known finding.
+func dictRegistersInMapOrder(c *Case) bool {
+	seen := map[string]bool{}
+	found := false
+	for _, o := range c.Ops {
+		var here []string
+		v := &termVisitor{}
+		v.arg = func(a Arg) {
+			if d, ok := a.(*Dict); ok && len(d.Pairs) > 1 {
+				walkArg(d, &termVisitor{item: func(it SItem) {
+					if q, isQ := it.(Qual); isQ && !seen[q.Path] {
+						found = true
+					}
+				}})
+			}
+		}
+		v.item = func(it SItem) {
+			if q, isQ := it.(Qual); isQ {
+				here = append(here, q.Path)
+			}
+		}
+		for _, a := range o.Args {
+			walkArg(a, v)
+		}
+		walkItems(o.Items, v)
+		for _, p := range here {
+			seen[p] = true
+		}
+	}
+	return found
+}
+
 func hasEqualKeyTexts(c *Case) bool {
 	found := false
 	walkCase(c, &termVisitor{arg: func(a Arg) {
@@ -757,7 +801,7 @@ func oracleC07(cx *CheckCtx, runs []*CaseRun) []Finding {
 			}
 			if diff >= 0 {
 				shape := "nondeterministic-output"
-				if hasMultiDictQual(cr.Case) {
+				if dictRegistersInMapOrder(cr.Case) {
 					shape = "dict-registers-imports-in-map-order"
 				} else if hasEqualKeyTexts(cr.Case) {
 					shape = "dict-equal-key-texts"
